@@ -103,7 +103,7 @@ var binaryLabels = [][]byte{
 
 // namePool builds names related to the query name so that suffix sharing,
 // binary labels and near-collisions occur.
-func namePool(r *hrand, q refdns.Name, shape string) []refdns.Name {
+func namePool(r *hrand, q refdns.Name, shape string, maxNames bool) []refdns.Name {
 	ls := q.Labels()
 	pool := []refdns.Name{q}
 	suffix := func(k int) [][]byte {
@@ -152,6 +152,30 @@ func namePool(r *hrand, q refdns.Name, shape string) []refdns.Name {
 		add(long, suffix(2))
 		add(long[1:], suffix(2))
 	}
+	if maxNames {
+		// the longest names there are: 255 octets on the wire, and one less
+		for _, target := range []int{255, 254} {
+			suf := suffix(2)
+			rem := target - 1
+			for _, l := range suf {
+				rem -= len(l) + 1
+			}
+			var pre [][]byte
+			for rem >= 2 {
+				n := min(63, rem-1)
+				if rem-(n+1) == 1 {
+					n--
+				}
+				l := make([]byte, n)
+				for j := range l {
+					l[j] = 'a' + byte(r.intn(26))
+				}
+				pre = append(pre, l)
+				rem -= n + 1
+			}
+			add(pre, suf)
+		}
+	}
 	return pool
 }
 
@@ -163,7 +187,7 @@ func Generate(seed uint64, up string, token string, qname refdns.Name, qclass, q
 	m := &refdns.Msg{}
 	m.Bits = refdns.BitQR | refdns.BitRA | refdns.BitRD | uint16(spec.Rcode&0xF) | spec.Bits&(refdns.BitAA|refdns.BitTC|refdns.BitAD|refdns.BitCD)
 	m.Q = []refdns.Question{{Name: qname, Type: qtype, Class: qclass}}
-	pool := namePool(r, qname, spec.Shape)
+	pool := namePool(r, qname, spec.Shape, spec.MaxNames)
 	ttl := func(i int) uint32 {
 		if len(spec.TTLs) == 0 {
 			return 300
